@@ -27,12 +27,13 @@ def parseCookie (s : String) : Option RawCookie :=
   match s.splitOn ":" with
   | [n, v, d, as] =>
     match hexOr n, hexOr v, parseTs d, allSome ((splitList as ";").map parseAttr) with
-    | some nn, some vv, some dd, some aa => some { name := nn, value := vv, attrs := aa, dateTs := dd }
+    | some nn, some vv, some dd, some aa => some { name := nn, value := some vv, attrs := aa, dateTs := dd }
     | _, _, _, _ => none
   | _ => none
 
 def showList (l : List String) (sep : String) : String := if l.isEmpty then "_" else sep.intercalate l
-def showDict (d : Dict) : String := showList (d.map (fun p => showBytes p.1 ++ ":" ++ showBytes p.2)) ";"
+def showVal (v : Val) : String := match v with | none => "none" | some b => showBytes b
+def showDict (d : Dict) : String := showList (d.map (fun p => showBytes p.1 ++ ":" ++ showVal p.2)) ";"
 def showEntry (p : JKey × Dict) : String :=
   showBytes p.1.domain ++ ":" ++ toString p.1.port ++ ":" ++ showBytes p.1.path ++ "=" ++ showDict p.2
 def b01 (b : Bool) : String := if b then "1" else "0"
@@ -72,7 +73,8 @@ def stepLine (jar : Jar) (line : String) : Jar × String :=
     | some host, some port, some pth =>
       if f = "0" ∨ f = "1" then
         let l := attached jar (f == "1") host port pth
-        (jar, if l.isEmpty then "none" else showBytes (cookieHeader l))
+        -- the Cookie header text with `_format_pairs` quoting (C34's transcription)
+        (jar, if l.isEmpty then "none" else showBytes (strToBytes (cookieHeaderText l)))
       else (jar, "bad-op")
     | _, _, _ => (jar, "bad-op")
   | ["dump"] => (jar, showList (jar.map showEntry) " ")
